@@ -43,6 +43,9 @@ Fixpoint spack (fmt : list fch) (args : list Z) : res (list byte) :=
   | _, _ => Err EStruct
   end.
 
+(* struct.pack('<n>s', b): exactly n bytes — b cut, or padded with zero bytes; never an error for bytes *)
+Definition pack_s (n : nat) (b : list byte) : res (list byte) := Ok (firstn n (b ++ repeat x00 n)).
+
 (* struct.unpack of ONE integer format character from exactly fsize bytes *)
 Definition sp_dec (l : list byte) : Z := fold_left (fun a b => a * 256 + Z_of_byte b) l 0.
 Definition sp_signed (c : fch) : bool :=
